@@ -204,6 +204,8 @@ class PackageGenerator:
             query_types_generator.get_unpacked_fragments()
         )
         self._used_enums.extend(query_types_generator.get_used_enums())
+        if file_name in self._result_types_files:
+            raise ParsingError(f"Duplicated file names: {file_name}")
         self._result_types_files[file_name] = query_types_generator.generate()
         operation_str = query_types_generator.get_operation_as_str()
         self.init_generator.add_import(
